@@ -42,6 +42,18 @@ CHECKS = {
         "Daily range() windows on an integer-second grid at decorator level (other forms at function level); occurrences "
         "settled one at a time; recordings sampled.",
         "DESIGN.md section 5 C07, Appendix G"),
+    "C08": (
+        "TLC model checking of spec/Msgs.tla (listener fan-out, per-trigger FIFO, filter, one task per accepted message, "
+        "context lineage; all interleavings) + trace validation of recorded bursts of event/MQTT/webhook messages against "
+        "spec/MsgTrace.tla (shared operators in MsgCore.tla)",
+        "Message delivery is an explicit TLA+ model; TLC enumerates trigger sets x message sequences x interleavings of "
+        "arrival, delivery, consumption and long-running runs and checks exactly-once, per-trigger order, independence of "
+        "runs and HA context lineage.  The real integration (both subsystems) is fed bursts of events, MQTT and webhook "
+        "messages at the HA hand-over boundary while earlier runs sleep; run starts, kwargs, task identities and the contexts "
+        "and parameters of everything the runs emit (event.fire, state.set, service.call) are recorded and decided by TLC.",
+        "MQTT/webhook injected at the hand-over boundary (fake broker, direct handler call); exact-topic matching; lineage "
+        "required only for occurrences that carry a context; recordings sampled.",
+        "DESIGN.md section 5 C08"),
 }
 
 NOT_YET = {
